@@ -116,6 +116,16 @@ ENGINES_EXTRA += [
  {'name': 'purity', 'path': 'coq/theories/Proofs/PurityProofs.v + harness/purity_check.py', 'serves_properties': ['C16'], 'kind_free_text': 'idempotence of the EDIF pre-pass; before/after snapshots of compose in the three formats'},
 ]
 
+CHECKS.update({
+ 'C18': dict(engine='eblif', note='Trusted: Coq 8.16.1 kernel; extraction (ExtrOcamlBasic only); ocaml/driver_eblif.ml; harness/eblif_*.py (tokeniser mimic, independent writer/expectation, three oracles). Modelled by hand: the EBLIF line reader (classify/mode machine/exec/finish) and the composer on ASCII texts, names without * or ?, bit indices of 1-3 digits; statements that make the reader resynchronise mid-line give model outcome "outside" and are not compared. Connectivity, library and direction clauses and the round trip are decided by correspondence and the design/round-trip oracles only. 13 open known findings.',
+   technique='Coq proof over a hand-written model of the EBLIF reader and writer (well-formedness of every accepted document; instance clause for the supported subset; round-trip statement refuted by computed witness) + correspondence of the extracted model with the real parser/composer on generated, damaged and bundled files + independent design and round-trip oracles',
+   text='proof (partial; one clause refuted): every netlist the EBLIF reader model returns is well-formed and self-contained, for all documents (C18_wf); for the supported subset the instances, definitions and instance data are exactly the statements, in order (C18_sound_instances); the unrestricted round-trip statement is refuted by a computed witness replayed on the implementation (C18_roundtrip_refuted). Connectivity/.conn, library and direction clauses: correspondence + oracles only.',
+   design='DESIGN.md 5/C18, 10'),
+})
+ENGINES_EXTRA += [
+ {'name': 'eblif', 'path': 'coq/theories/Fmt/Blif*.v + coq/theories/Proofs/Blif*.v + ocaml/driver_eblif.ml + harness/eblif_*.py', 'serves_properties': ['C18'], 'kind_free_text': 'Gallina model of the EBLIF line reader and composer; differential run on generated/damaged/bundled texts; design, well-formedness and round-trip oracles'},
+]
+
 ENGINES = [
  {'name': 'ir', 'path': 'coq/theories/IR + ocaml/driver_ir.ml + harness/ir_*.py', 'serves_properties': ['C01', 'C02', 'C10', 'C14', 'C19'],
   'kind_free_text': 'Gallina model of all public IR mutators and of the namespace manager, extracted to OCaml; differential run against the real spydrnet with canonical dumps after every call'},
